@@ -253,16 +253,25 @@ def register_dataclass_type_with_jax_tree_util(data_class):
         constructable from keyword arguments corresponding to the members exposed
         in instance.__dict__.
     """
-    def unzip2(pairs):
-        # `jax.util.unzip2` was removed from JAX
-        xs, ys = [], []
-        for x, y in pairs:
-            xs.append(x)
-            ys.append(y)
-        return tuple(xs), tuple(ys)
+    field_names = frozenset(f.name for f in dataclasses.fields(data_class))
 
-    flatten = lambda d: unzip2(sorted(d.__dict__.items()))[::-1]
-    unflatten = lambda keys, values: data_class(**dict(zip(keys, values)))
+    def is_static(value):
+        # python scalars (dimensions) and callables (control functions) are structure, not data
+        return isinstance(value, (int, str)) or callable(value)
+
+    def flatten(d):
+        # Only declared fields are constructor arguments: attributes that are filled lazily
+        # (e.g. GaussianMeasure.mu, GaussianMeasure.lnZ) are recomputed on demand.
+        items = sorted((k, v) for k, v in d.__dict__.items() if k in field_names)
+        static = tuple((k, v) for k, v in items if is_static(v))
+        keys = tuple(k for k, v in items if not is_static(v))
+        values = tuple(v for k, v in items if not is_static(v))
+        return values, (keys, static)
+
+    def unflatten(aux, values):
+        keys, static = aux
+        return data_class(**dict(zip(keys, values)), **dict(static))
+
     try:
         jax.tree_util.register_pytree_node(
             nodetype=data_class, flatten_func=flatten, unflatten_func=unflatten
